@@ -27,7 +27,12 @@ type material struct {
 	certPEM, keyPEM []byte
 	der             []byte
 	subject         []byte
+	key             *ecdsa.PrivateKey
+	cert            *x509.Certificate
 }
+
+// a CA that appears in no configuration at all
+const strangerCAID = 9
 
 var (
 	servingCerts = map[int]material{}
@@ -35,7 +40,32 @@ var (
 	certByDER    = map[string]int{}
 	caBySubject  = map[string]int{}
 	baseConfig   *tls.Config
+	// client certificates by the id of the CA that signed them (1..nCAs, baseCAID, strangerCAID); CN "user-<id>"
+	clientCerts = map[int]tls.Certificate{}
+	caMaterial  = map[int]material{}
+	baseServing material
 )
+
+func issueClient(caID int) tls.Certificate {
+	ca := caMaterial[caID]
+	key, err := ecdsa.GenerateKey(elliptic.P256(), rand.Reader)
+	if err != nil {
+		panic(err)
+	}
+	tpl := &x509.Certificate{
+		SerialNumber: big.NewInt(int64(5000 + caID)),
+		Subject:      pkix.Name{CommonName: fmt.Sprintf("user-%d", caID)},
+		NotBefore:    time.Now().Add(-time.Hour),
+		NotAfter:     time.Now().Add(24 * time.Hour),
+		KeyUsage:     x509.KeyUsageDigitalSignature,
+		ExtKeyUsage:  []x509.ExtKeyUsage{x509.ExtKeyUsageClientAuth},
+	}
+	der, err := x509.CreateCertificate(rand.Reader, tpl, ca.cert, &key.PublicKey, ca.key)
+	if err != nil {
+		panic(err)
+	}
+	return tls.Certificate{Certificate: [][]byte{der}, PrivateKey: key}
+}
 
 func mkCert(id int, cn string, isCA bool) material {
 	key, err := ecdsa.GenerateKey(elliptic.P256(), rand.Reader)
@@ -69,6 +99,8 @@ func mkCert(id int, cn string, isCA bool) material {
 		keyPEM:  pem.EncodeToMemory(&pem.Block{Type: "EC PRIVATE KEY", Bytes: kb}),
 		der:     der,
 		subject: parsed.RawSubject,
+		key:     key,
+		cert:    parsed,
 	}
 }
 
@@ -82,8 +114,10 @@ func initMaterial() {
 		m := mkCert(1000+i, fmt.Sprintf("ca-%d", i), true)
 		clientCAs[i] = m
 		caBySubject[string(m.subject)] = i
+		caMaterial[i] = m
 	}
 	b := mkCert(baseCertID, "gateway", false)
+	baseServing = b
 	certByDER[string(b.der)] = baseCertID
 	bc, err := tls.X509KeyPair(b.certPEM, b.keyPEM)
 	if err != nil {
@@ -92,6 +126,11 @@ func initMaterial() {
 	}
 	bca := mkCert(1000+baseCAID, "ca-base", true)
 	caBySubject[string(bca.subject)] = baseCAID
+	caMaterial[baseCAID] = bca
+	caMaterial[strangerCAID] = mkCert(1000+strangerCAID, "ca-stranger", true)
+	for id := range caMaterial {
+		clientCerts[id] = issueClient(id)
+	}
 	pool := x509.NewCertPool()
 	pool.AppendCertsFromPEM(bca.certPEM)
 	baseConfig = &tls.Config{Certificates: []tls.Certificate{bc}, ClientCAs: pool, ClientAuth: tls.NoClientCert}
